@@ -84,6 +84,7 @@ def run(tier):
         with common.Lock():
             common.stage_harness()
             common.stage_harness(cover=True)
+            common.emit_all_gen()
             ok_inst, ok_props, _, logs = common.coq_stage(rp, ["theories/Proofs/CostP.vo", "theories/Proofs/LexerP.vo", "theories/Proofs/LoopsP.vo", "theories/Proofs/ExtractP.vo"], "theories/Props/C20.v", theorems)
     except common.StageError as e:
         return common.stage_fail(rp, e)
